@@ -216,6 +216,15 @@ def plan_wire(pid, rng, quick):
                     bs.append(uniform_batch(rng, variant))
                 plan.append({"id": "wire-uniform/%s/v%d/%d" % (signal, variant, rep), "signal": signal, "opts": o, "batches": bs,
                              "props": [], "mode": 0, "nodecode": True})
+    # long unbounded-cardinality streams under the default (16-bit) limit: more than twice 65,535 distinct values in one
+    # column, so that a dictionary that is widened or restarted instead of being dropped shows up on the wire
+    deep = [("logs", "body"), ("traces", "attr"), ("metrics", "attr"), ("logs", "attr"), ("traces", "name")]
+    for signal, col in (deep[:2] if quick else deep):
+        for d in ([""] if quick else ["", "16"]):
+            o = {"dict": d} if d else {}
+            plan.append({"id": "wire-deep/%s/%s/%s" % (signal, col, d or "default"), "signal": signal, "opts": o,
+                         "batches": [ramp(signal, 10000, 10000, k * 10000, col) for k in range(15)],
+                         "props": [], "mode": 2, "nodecode": True})
     dicts = ["8", "8", "16", "", "none", "32", "64"]
     for i in range(30 if quick else 1200):
         signal = rng.choice(["traces", "logs", "metrics"])
